@@ -12,6 +12,7 @@ from mc.lib import grid_pairs, make_biv
 PROPERTY = 'C06'
 LEVEL = 'exploration'
 ENGINE = 'E1-product-explorer'
+ENGINES = ('E1-product-explorer', 'E2-sequence-explorer')
 TECHNIQUE = ('bounded-exhaustive enumeration of family x theta x (u,v)-grid x batch-layout alphabet against an '
              'mpmath generator-construction reference model (explicit-state, no sampling)')
 LEVEL_TEXT = ('every (family, theta, u, v, layout) of the stated finite alphabet is executed on the real code and '
@@ -45,6 +46,7 @@ def cases(tier, seed):
         for i, th in enumerate(ths):
             nxt = ths[i + 1] if i + 1 < len(ths) else None
             out.append((fam, th, nxt, tier))
+        out.append((fam, 'history', None, tier))
     return out
 
 
@@ -52,6 +54,13 @@ def run_case(case):
     from mc.ref.archimedean import Ref
     fam, th, nxt, tier = case
     r = engine.new_result()
+    if th == 'history':
+        from mc.lib import history_walk
+        g = sorted(set(A.tier_grid(tier) + A.BOUNDARY))
+        history_walk(r, fam, sorted(A.THETAS[tier][fam]), ['cumulative_distribution'], grid_pairs(g),
+                     f'C06:{fam}', case)
+        r.outcome(f'{fam}:history')
+        return r
     g = sorted(set(A.tier_grid(tier) + A.BOUNDARY))
     m = len(g)
     P = grid_pairs(g)
@@ -76,7 +85,8 @@ def run_case(case):
     r.ev(len(P) * (4 + k))
     for name, arr in (('full', full), ('reversed', rev), ('boundary-first', zf)) + \
             tuple((f'tile{j}', tiled[j]) for j in (0, k - 1)):
-        bad = np.nonzero(~(np.abs(arr - alone) <= TOL_BATCH * np.maximum(1, np.abs(alone))))[0]
+        bad = np.nonzero(~((np.abs(arr - alone) <= TOL_BATCH * np.maximum(1, np.abs(alone))) |
+                           (np.isnan(arr) & np.isnan(alone))))[0]
         if len(bad):
             i = int(bad[0])
             r.violation(f'{sig}:batch-dependence', f'{fam} theta={th}: row {P[i].tolist()} gives '
@@ -182,3 +192,4 @@ def finish(agg, tier):
         engine.require(agg['hits'].get(f'family:{fam}', 0) >= 6, f'family {fam} under-explored')
     engine.require(agg['hits'].get('branch:gumbel-theta-1', 0) >= 1, 'Gumbel theta=1 branch not reached')
     engine.require(agg['extra'].get('rectangles', 0) > 1e5, 'rectangle volumes not enumerated')
+    engine.require(agg['hits'].get('history-cases', 0) == 3, 'history cases missing')
